@@ -323,7 +323,8 @@ impl C17 {
         let n = a[1] as usize;
         let vals: Vec<i64> = a[2..2 + n].to_vec();
         let distinct: BTreeSet<i64> = vals.iter().copied().collect();
-        let in_q = (1..=255).contains(&max) && n <= 300 && vals.iter().all(|v| v.abs() <= (1 << 30) - 1);
+        // every i32 is inside the quantifier since /repo 3d2d8d9 (search and midpoints in i64)
+        let in_q = (1..=255).contains(&max) && n <= 300;
         out.nontrivial = distinct.len() > max as usize;
         out.tag(if distinct.len() <= max as usize { "cp:fits" } else { "cp:search" });
         if !in_q {
@@ -566,7 +567,7 @@ fn gen_cp(r: &mut Rng) -> String {
     let vals: Vec<i64> = (0..n)
         .map(|i| match style {
             0 => r.range(-20, 20),
-            1 => r.range(-(1 << 24), (1 << 24) - 1),
+            1 => if base % 2 == 0 { r.range(-(1 << 24), (1 << 24) - 1) } else { r.next_u64() as i32 as i64 },
             2 => base + (i as i64) * 7 + r.range(0, 1),
             3 => (r.range(0, 6) << 18) + r.range(-40, 40),
             4 => r.range(0, 1 << 20),
@@ -578,7 +579,7 @@ fn gen_cp(r: &mut Rng) -> String {
                     r.range(-3000, 3000)
                 }
             }
-            _ => (1i64 << r.range(0, 24)) * if r.chance(1, 2) { -1 } else { 1 },
+            _ => ((1i64 << r.range(0, 31)) * if r.chance(1, 2) { -1 } else { 1 }).clamp(MIN, i32::MAX as i64),
         })
         .collect();
     format!("cp {} {} {}", max, n, join(&vals))
@@ -646,7 +647,7 @@ impl Property for C17 {
          swf/sws: Rust-only exhaustive sweeps of the round trip (quick: all 2^20 fractions of integer parts 0 and -2047, stride 65521 over all 2^32 patterns; thorough: ALL 2^32 patterns in 64 cases of 2^26 unless VERIF_C17_FULL=0, then all 2^20 fractions x 64 integer parts + stride 257; see extra.swept_fix_words_rust_only); \
          ps: structured random decimal texts (prefix, signs, integer part around 2047/2048, 0..9 fraction digits, junk) through the real reader; \
          sc: (value, design size) grid over boundary values (bytes of v, z at every halving threshold) and random pairs; \
-         cp: all lists of length ≤ 4 over 6 values × class limits 1..3, then random multisets of ≤ 300 values (clustered, progressions, legal range, powers of two, a few overflowing) × class limits 1..255; \
+         cp: all lists of length ≤ 4 over 6 values × class limits 1..3, then random multisets of ≤ 300 values (clustered, progressions, legal range, powers of two, a few at the ends of the i32 range) × class limits 1..255; \
          nl: all functional graphs on ≤ 5 nodes (quick: ≤ 4, and a third of those on 5) with permuted labels, random graphs ≤ 256 nodes (random maps, permutations, one big cycle, chains, forests), non-existent targets kept/dropped. \
          Non-trivial = pp: some value with a non-zero fraction; ps: text contains a digit; sc: inside the guard with v ≠ 0 and ds ≠ 0; cp: more distinct values than classes; nl: at least 2 edges; sweeps always. distinct = distinct case string."
             .into()
